@@ -92,7 +92,25 @@ def import_clients(root, clients, core_pkg):
     return bad
 
 
+def _transition(t):
+    """one generation = one process (a separate CLI invocation in real use): copy the source tree, run the generator"""
+    lay, sdir, tdir, c, s, force, doc = t
+    shutil.copytree(sdir, tdir, symlinks=True)
+    root = os.path.join(tdir, "proj")
+    core_arg = None if lay.get("default_for") == c else lay["core"]
+    files, err = sandbox.generate(doc, root, output_package=c, core_package=core_arg, force=force, spec_name=f"{s}.json")
+    present = [x for x in lay["clients"] if os.path.isdir(pkgcheck.pkg_dir(root, x))]
+    return {"ok": err is None, "core_state": core_state(root, lay["core"]), "present": present}
+
+
+def _imports(t):
+    root, generated, core = t
+    return import_clients(root, generated, core)
+
+
 def run_case(case):
+    from .. import kernel
+
     lay = LAYOUTS[case["layout"]]
     tier = case["tier"]
     clients = lay["clients"][:2] if tier == "quick" else lay["clients"]
@@ -100,6 +118,7 @@ def run_case(case):
     if tier == "quick" and case["layout"] in ("pk.shared.core", "pk.a.b.core", "acme_core", "first-client-core"):
         specs = ["s404", "s422+500"]
     max_depth = None if tier == "quick" else 4
+    lanes = max(1, -(-int(os.environ.get("VERIF_WORKERS", "16")) // len(LAYOUTS)))
     events = [(c, s, f) for c in clients for s in specs for f in (True, False)]
     if tier == "quick":
         # non-force generations only for the first client (thorough: for every client)
@@ -122,44 +141,50 @@ def run_case(case):
         os.makedirs(os.path.join(init, "proj"))
         init_key = (tuple((c, None) for c in clients), ((), None))
         states[init_key] = (init, [])
-        frontier = collections.deque([init_key])
-        while frontier:
-            key = frontier.popleft()
-            sdir, hist = states[key]
-            if max_depth is not None and len(hist) >= max_depth:
-                continue
-            for (c, s, force) in events:
-                tdir = new_dir()
-                shutil.copytree(sdir, tdir, symlinks=True)
-                root = os.path.join(tdir, "proj")
-                core_arg = None if lay.get("default_for") == c else lay["core"]
-                files, err = sandbox.generate(docs[s], root, output_package=c, core_package=core_arg, force=force, spec_name=f"{s}.json")
+        level = [init_key]
+        depth = 0
+        # level-synchronous breadth-first search: all transitions of one level run in parallel (each in its own process),
+        # their results are merged in task order, so the search is independent of timing
+        while level and (max_depth is None or depth < max_depth):
+            tasks = []
+            for key in level:
+                sdir, hist = states[key]
+                for (c, s, force) in events:
+                    tasks.append((key, hist, c, s, force, new_dir()))
+            results = kernel.fork_map(_transition, [(lay, states[k][0], tdir, c, s, force, docs[s]) for (k, h, c, s, force, tdir) in tasks], lanes)
+            nxt = []
+            fresh = []
+            for (key, hist, c, s, force, tdir), r in zip(tasks, results):
                 transitions += 1
                 ev = f"gen({c},{s},{'force' if force else 'noforce'})"
                 h2 = hist + [ev]
                 cfg = dict(key[0])
-                if err is None:
+                if r["ok"]:
                     cfg[c] = s
-                generated = [x for x in clients if cfg[x] is not None or os.path.isdir(pkgcheck.pkg_dir(root, x))]
-                nk = (tuple((x, cfg[x]) for x in clients), core_state(root, lay["core"]))
-                # invariant: every client generated so far still imports. What a client can import depends only on the canonical
-                # state (see ASSUMPTIONS), so the import run is made when a canonical state is reached for the first time
-                is_new = nk not in states
-                for cl, e, raw in (import_clients(root, [x for x in generated if os.path.isdir(pkgcheck.pkg_dir(root, x))], lay["core"]) if is_new else []):
+                generated = [x for x in clients if x in r["present"]]
+                nk = (tuple((x, cfg[x]) for x in clients), r["core_state"])
+                if nk != key:
+                    changed += 1
+                    nontriv.append(f"{case['layout']}|{' ; '.join(h2)}")
+                if nk not in states:
+                    states[nk] = (tdir, h2)
+                    nxt.append(nk)
+                    fresh.append((nk, c, h2, os.path.join(tdir, "proj"), generated))
+                else:
+                    shutil.rmtree(tdir, ignore_errors=True)
+            # invariant: every client generated so far still imports. What a client can import depends only on the canonical
+            # state (see ASSUMPTIONS), so the import run is made when a canonical state is reached for the first time
+            imps = kernel.fork_map(_imports, [(root, generated, lay["core"]) for (_, _, _, root, generated) in fresh], lanes)
+            for (nk, c, h2, root, generated), bad in zip(fresh, imps):
+                for cl, e, raw in bad:
                     victim = "the client just generated" if cl == c else "a client generated earlier"
                     sig = f"C11|{case['layout']}|{victim} does not import after the step|{e}"
                     k = f"{case['layout']}|{' ; '.join(h2)}"
                     if (sig, k) not in seen_sig:
                         seen_sig.add((sig, k))
                         found.append({"sig": sig, "key": k, "msg": f"{cl}: {raw} | history {' ; '.join(h2)}"})
-                if nk != key:
-                    changed += 1
-                    nontriv.append(f"{case['layout']}|{' ; '.join(h2)}")
-                if nk not in states:
-                    states[nk] = (tdir, h2)
-                    frontier.append(nk)
-                else:
-                    shutil.rmtree(tdir, ignore_errors=True)
+            level = nxt
+            depth += 1
     # one finding per signature for the report, all keys for the witness set
     return {"findings": found, "evals": transitions, "nontrivial": nontriv, "nontrivial_multi": True,
             "states": len(states), "transitions": transitions, "validated": transitions,
